@@ -56,6 +56,7 @@ class Checker(CommandMixin):
         self.quiesced_at = None
         self.epoch = 0          # bumps at every sweep / restart (C02 non-triviality)
         self.backward_jump = False
+        self.retired_np = {}    # (app, name) -> mailbox of a nameplate retired by the close of its mailbox
         self.lost_np = {}       # (app, name) -> mailbox of a nameplate a sweep removed against the rules
         if initial is not None:
             self._seed(initial)
